@@ -77,7 +77,8 @@ Definition Trim (t : text) (zeichen : Z) : res text :=
   else
     do startIndex <- trim_start_loop (length t + 1) t zeichen 1;;
     do stopIndex <- trim_stop_loop (length t + 1) t zeichen (len t);;
-    if (startIndex =? len t) && (stopIndex =? 1) then Ok [] else slice t startIndex stopIndex.
+    do alles <- (if (startIndex =? len t) && (stopIndex =? 1) then do c <- rd t 1;; Ok (c =? zeichen) else Ok false);;
+    if alles then Ok [] else slice t startIndex stopIndex.
 Definition Trim_Wert := Trim.
 
 (* Für jeden Buchstaben b in text, wenn b gleich zeichen ist, gib wahr zurück. Gib falsch zurück. *)
@@ -106,28 +107,38 @@ Definition Text_Enthaelt_Text (t such : text) : res bool :=
     if (nt =? 0) || (ns =? 0) then Ok false
     else enthaelt_text_loop (length t + 1) t such nt ns 1 ns.
 
-Fixpoint anzahl_text_loop (fuel : nat) (t such : text) (nt ns step_is_ns : Z) (startIndex endIndex anz : Z) : res Z :=
+Fixpoint anzahl_text_loop (fuel : nat) (t such : text) (nt ns : Z) (startIndex endIndex anz : Z) : res Z :=
   match fuel with
   | O => NoFuel
   | S f =>
       if endIndex <=? nt
       then do sub <- slice t startIndex endIndex;;
            let anz := if text_eqb sub such then anz + 1 else anz in
-           if step_is_ns =? 0
-           then (* Speichere startIndex plus ns in endIndex. Erhöhe startIndex um 1. *)
-                anzahl_text_loop f t such nt ns step_is_ns (startIndex + 1) (startIndex + ns) anz
-           else (* Erhöhe startIndex um ns. Erhöhe endIndex um ns. *)
-                anzahl_text_loop f t such nt ns step_is_ns (startIndex + ns) (endIndex + ns) anz
+           (* Speichere startIndex plus ns in endIndex. Erhöhe startIndex um 1. *)
+           anzahl_text_loop f t such nt ns (startIndex + 1) (startIndex + ns) anz
       else Ok anz
   end.
 Definition Text_Anzahl_Text (t such : text) : res Z :=
   let nt := len t in let ns := len such in
   if nt =? 0 then Ok 0 else if ns =? 0 then Ok nt
-  else anzahl_text_loop (length t + 1) t such nt ns 0 1 ns 0.
+  else anzahl_text_loop (length t + 1) t such nt ns 1 ns 0.
+(* Wenn subtext gleich suchText ist: Erhöhe anz um 1. Erhöhe startIndex um ns. Erhöhe endIndex um ns.
+   Sonst: Erhöhe startIndex um 1. Erhöhe endIndex um 1. *)
+Fixpoint nicht_ueberlappend_loop (fuel : nat) (t such : text) (nt ns : Z) (startIndex endIndex anz : Z) : res Z :=
+  match fuel with
+  | O => NoFuel
+  | S f =>
+      if endIndex <=? nt
+      then do sub <- slice t startIndex endIndex;;
+           if text_eqb sub such
+           then nicht_ueberlappend_loop f t such nt ns (startIndex + ns) (endIndex + ns) (anz + 1)
+           else nicht_ueberlappend_loop f t such nt ns (startIndex + 1) (endIndex + 1) anz
+      else Ok anz
+  end.
 Definition Text_Anzahl_Text_Nicht_Ueberlappend (t such : text) : res Z :=
   let nt := len t in let ns := len such in
   if nt =? 0 then Ok 0 else if ns =? 0 then Ok nt
-  else anzahl_text_loop (length t + 1) t such nt ns 1 1 ns 0.
+  else nicht_ueberlappend_loop (length t + 1) t such nt ns 1 ns 0.
 
 Definition Beginnt_Mit_Buchstabe (t : text) (b : Z) : res bool :=
   if len t =? 0 then Ok false else do c <- rd t 1;; Ok (c =? b).
@@ -143,22 +154,28 @@ Definition Endet_Mit_Text (t such : text) : res bool :=
 Definition Text_Leeren (t : text) : text := [].
 Definition Text_An_Text_Fuegen (t elm : text) : text := t ++ elm.
 Definition Buchstabe_An_Text_Fuegen (t : text) (elm : Z) : text := t ++ [elm].
-(* Speichere text bis zum (index minus 1). Element verkettet mit elm verkettet mit text ab dem index. Element in text. *)
+(* Wenn index kleiner als, oder 1 ist: elm verkettet mit text. Wenn aber index größer als die Länge von text ist: text verkettet mit elm.
+   Sonst: text bis zum (index minus 1). Element verkettet mit elm verkettet mit text ab dem index. Element. *)
 Definition Text_In_Text_Einfuegen (t : text) (index : Z) (elm : text) : res text :=
-  do a <- slice_to t (index - 1);; do b <- slice_from t index;; Ok ((a ++ elm) ++ b).
+  if index <=? 1 then Ok (elm ++ t)
+  else if index >? len t then Ok (t ++ elm)
+  else do a <- slice_to t (index - 1);; do b <- slice_from t index;; Ok ((a ++ elm) ++ b).
 Definition Buchstabe_In_Text_Einfuegen (t : text) (index : Z) (elm : Z) : res text :=
-  do a <- slice_to t (index - 1);; do b <- slice_from t index;; Ok ((a ++ [elm]) ++ b).
+  if index <=? 1 then Ok (elm :: t)
+  else if index >? len t then Ok (t ++ [elm])
+  else do a <- slice_to t (index - 1);; do b <- slice_from t index;; Ok ((a ++ [elm]) ++ b).
 Definition Text_Vor_Text_Stellen (t elm : text) : text := elm ++ t.
 Definition Buchstabe_Vor_Text_Stellen (t : text) (elm : Z) : text := elm :: t.
 
 Definition Loesche_Text (t : text) (index : Z) : res text :=
   if len t =? 0 then Ok t
-  else if (index =? 1) && (len t >? 1) then Ok []
+  else if (index =? 1) && (len t =? 1) then Ok []
   else if index =? 1 then slice_from t 2
   else if index =? len t then slice_to t (len t - 1)
   else do a <- slice_to t (index - 1);; do b <- slice_from t (index + 1);; Ok (a ++ b).
 Definition Loesche_Text_Bereich (t : text) (start end_ : Z) : res text :=
-  if start =? 1 then slice_from t (end_ + 1)
+  if end_ >=? len t then (if start <=? 1 then Ok [] else slice_to t (start - 1))
+  else if start =? 1 then slice_from t (end_ + 1)
   else do a <- slice_to t (start - 1);; do b <- slice_from t (end_ + 1);; Ok (a ++ b).
 
 Fixpoint fuelle_text_loop (n : nat) (i : Z) (t : text) (elm : Z) : res text :=
@@ -195,7 +212,8 @@ Fixpoint index_text_loop (fuel : nat) (t elm : text) (n c1 c2 tt i : Z) : res Z 
         do st <- (if negb (x =? c1)
                   then do sub <- slice t (i + 1) (i + tt);;
                        let o := Text_Index_Von_Buchstabe sub c1 in
-                       if o <? 0 then Ok (Ret (-1)) else Ok (Next (i + o))
+                       if o <? 0 then Ok (Ret (-1))
+                       else let i := i + o in if i >? tt then Ok (Ret (-1)) else Ok (Next i)
                   else Ok (Next i));;
         match st with
         | Ret r => Ok r
@@ -248,7 +266,7 @@ Definition Polster_Rechts (t : text) (zeichen endlaenge : Z) : text :=
   if gesuchteLaenge <=? 0 then t else wiederhole (Z.to_nat gesuchteLaenge) (fun t => Buchstabe_An_Text_Fuegen t zeichen) t.
 
 (* ---- Spalte / Spalte_Text / Finde_Subtext ---- *)
-Fixpoint spalte_loop (fuel : nat) (index_of : text -> res Z) (l : Z) (t : text) (endliste : list text) (i n : Z) : res (text * list text * Z) :=
+Fixpoint spalte_loop (fuel : nat) (index_of : text -> res Z) (am_ende : Z -> text -> bool) (l : Z) (t : text) (endliste : list text) (i n : Z) : res (text * list text * Z) :=
   match fuel with
   | O => NoFuel
   | S f =>
@@ -258,15 +276,16 @@ Fixpoint spalte_loop (fuel : nat) (index_of : text -> res Z) (l : Z) (t : text) 
         else
           do piece <- (if endIndex =? 1 then Ok [] else slice_to t (endIndex - 1));;
           let endliste := endliste ++ [piece] in
-          do t' <- (if len t =? l then Ok [] else slice_from t (endIndex + l));;
-          spalte_loop f index_of l t' endliste (i + 1) n
+          do t' <- (if am_ende endIndex t then Ok [] else slice_from t (endIndex + l));;
+          spalte_loop f index_of am_ende l t' endliste (i + 1) n
       else Ok (t, endliste, i)
   end.
 Definition Spalte (t : text) (zeichen : Z) : res (list text) :=
   if len t =? 0 then Ok []
   else
     let n := Text_Anzahl_Buchstabe t zeichen + 1 in
-    do r <- spalte_loop (length t + 2) (fun t => Ok (Text_Index_Von_Buchstabe_Ref t zeichen)) 1 t [] 1 n;;
+    (* Wenn endIndex gleich die Länge von text ist, Speichere "" in text. *)
+    do r <- spalte_loop (length t + 2) (fun t => Ok (Text_Index_Von_Buchstabe_Ref t zeichen)) (fun endIndex t => endIndex =? len t) 1 t [] 1 n;;
     let '(t', endliste, i) := r in
     slice_to (endliste ++ [t']) i.
 Definition Spalte_Text (t trenntext : text) : res (list text) :=
@@ -276,7 +295,8 @@ Definition Spalte_Text (t trenntext : text) : res (list text) :=
   else
     do cnt <- Text_Anzahl_Text_Nicht_Ueberlappend t trenntext;;
     let n := cnt + 1 in
-    do r <- spalte_loop (length t + 2) (fun t => Text_Index_Von_Text t trenntext) l t [] 1 n;;
+    (* Wenn endIndex plus l größer als die Länge von text ist, Speichere "" in text. *)
+    do r <- spalte_loop (length t + 2) (fun t => Text_Index_Von_Text t trenntext) (fun endIndex t => endIndex + l >? len t) l t [] 1 n;;
     let '(t', endliste, i) := r in
     slice_to (endliste ++ [t']) i.
 
@@ -284,7 +304,7 @@ Fixpoint finde_loop (fuel : nat) (t subtext : text) (lt ls start : Z) (l : list 
   match fuel with
   | O => NoFuel
   | S f =>
-      if start <? lt then
+      if start <=? lt - ls + 1 then
         do rest <- slice_from t start;;
         do i <- Text_Index_Von_Text rest subtext;;
         if i =? -1 then Ok l
@@ -294,7 +314,7 @@ Fixpoint finde_loop (fuel : nat) (t subtext : text) (lt ls start : Z) (l : list 
 Definition Finde_Subtext (t subtext : text) : res (list Z) :=
   let lt := len t in let ls := len subtext in
   if (ls =? 0) || (lt =? 0) || (ls >? lt) then Ok []
-  else if lt =? ls then Ok [1]
+  else if lt =? ls then (if text_eqb t subtext then Ok [1] else Ok [])
   else finde_loop (length t + 1) t subtext lt ls 1 [].
 
 (* ---- Verbinden ---- *)
@@ -333,7 +353,10 @@ Fixpoint vergleiche_loop (fuel : nat) (t1 t2 : text) (i : Z) : res Z :=
       else Ok (a - b)
   end.
 Definition Vergleiche_Text (t1 t2 : text) : res Z :=
-  if text_eqb t1 t2 then Ok 0 else vergleiche_loop (length t1 + 1) t1 t2 1.
+  if text_eqb t1 t2 then Ok 0
+  else if len t1 =? 0 then Ok (-1)
+  else if len t2 =? 0 then Ok 1
+  else vergleiche_loop (length t1 + 1) t1 t2 1.
 
 (* ---- Spalten_Spaltmenge (TextIterator = 1-based index into the text; text_iterator.c) ---- *)
 Definition it_zuende (t : text) (idx : Z) : bool := idx >? len t.
